@@ -431,6 +431,11 @@ class SchedulingSolver(BaseModelWithJson):
     def build_equivalent_weighted_objective(self) -> bool:
         # Replace objectives O_i, O_j, O_k with
         # O = WiOi+WjOj+WkOk etc.
+        # the solver may be initialized more than once (or several solvers created for
+        # the same problem): forget the equivalent objective of a previous initialization,
+        # which is not one of the user's objectives
+        self.problem.indicators.pop("EquivalentIndicator", None)
+        self.problem.objectives.pop("MinimizeEquivalentObjective", None)
         equivalent_single_objective = z3.Int("EquivalentSingleObjective")
         weighted_objectives = []
         for obj in self.problem.objectives.values():
